@@ -488,14 +488,21 @@ class Unit:
             spec['replaces'] = [(rn0(o), rn0(n), w) for o, n, w in spec['replaces']]
         # --- function-specific textual replacements (logged) ---
         for old, new, why in spec['replaces']:
-            cnt = text.count(old)
+            # layout-insensitive: a line break plus indentation in the anchor matches any (or no) white space, other
+            # white space matches any white-space run
+            rx = re.escape(old)
+            rx = re.sub(r'(?:\\\n|\n)(?:\\ )*', lambda m: r'\s*', rx)
+            rx = re.sub(r'(?:\\ )+', lambda m: r'\s+', rx)
+            hits = list(re.finditer(rx, text))
+            cnt = len(hits)
             if cnt != 1:
                 # the expression this rewrite stands for is gone (or duplicated): leave the text as it is; what
                 # Verus then makes of it (unconstrained result, or unsupported construct) decides
                 self.lost_anchors.append('%s: replace anchor %r occurs %d times' % (path, old, cnt))
                 continue
-            text = text.replace(old, new)
-            log.append(dict(rule='F', before=old, after=new, reason=why))
+            mm = hits[0]
+            text = text[:mm.start()] + new + text[mm.end():]
+            log.append(dict(rule='F', before=mm.group(0), after=new, reason=why))
         # --- rules on whole function text ---
         if 'D2' in rules:
             text = R.d2_drop_tracing(text, log)
